@@ -8,6 +8,7 @@ import (
 	"sort"
 	"strconv"
 	"strings"
+	"sync"
 
 	"golang.org/x/crypto/blake2b"
 	"golang.org/x/crypto/sha3"
@@ -254,10 +255,24 @@ func hexNibble(n *Term) *Term {
 	return Ite(lt, BinBV(OpAdd, n, BVC('0', 8)), BinBV(OpAdd, n, BVC('a'-10, 8)))
 }
 
+type hexOrig struct {
+	b  *Term
+	hi bool
+}
+
+// hexOrigin remembers which byte a symbolic hex character was produced from, so that
+// decode(encode(b)) folds back to b without going through the solver.
+var hexOrigin sync.Map // *Term -> hexOrig
+
 func hexOfBytes(bs []*Term) Str {
 	out := make([]*Term, 0, 2*len(bs))
 	for _, b := range bs {
-		out = append(out, hexNibble(BinBV(OpLShr, b, BVC(4, 8))), hexNibble(BinBV(OpAnd, b, BVC(15, 8))))
+		h, l := hexNibble(BinBV(OpLShr, b, BVC(4, 8))), hexNibble(BinBV(OpAnd, b, BVC(15, 8)))
+		if !b.IsConst() {
+			hexOrigin.Store(h, hexOrig{b, true})
+			hexOrigin.Store(l, hexOrig{b, false})
+		}
+		out = append(out, h, l)
 	}
 	return StrFromTerms(out)
 }
@@ -832,6 +847,12 @@ func init() {
 		out := make([]*Term, 0, len(bs)/2)
 		valid := TrueT
 		for i := 0; i < len(bs); i += 2 {
+			if oh, ok := hexOrigin.Load(bs[i]); ok {
+				if ol, ok := hexOrigin.Load(bs[i+1]); ok && oh.(hexOrig).hi && !ol.(hexOrig).hi && oh.(hexOrig).b == ol.(hexOrig).b {
+					out = append(out, oh.(hexOrig).b)
+					continue
+				}
+			}
 			hv, ok1 := unhex(bs[i])
 			lv, ok2 := unhex(bs[i+1])
 			valid = And(valid, And(ok1, ok2))
@@ -1114,4 +1135,72 @@ func (p *Path) nativeMethod(bn *boundNative, args []Value) Value {
 func (p *Path) logCall(method string, args []Value) {
 	// logger arguments are observables for the secrecy property (C15); kept per path
 	p.logArgs = append(p.logArgs, args...)
+}
+
+func init() {
+	reg("internal/bytealg.IndexByteString", func(p *Path, fn *ssa.Function, a []Value) Value {
+		s := a[0].(Str)
+		c := a[1].(*Term)
+		for i, b := range s.Bytes() {
+			if p.Fork(Eq(b, c)) {
+				return BVC(uint64(i), 64)
+			}
+		}
+		return BVC(^uint64(0), 64)
+	})
+	reg("internal/bytealg.IndexByte", func(p *Path, fn *ssa.Function, a []Value) Value {
+		c := a[1].(*Term)
+		for i, b := range bytesOf(p, a[0]) {
+			if p.Fork(Eq(b, c)) {
+				return BVC(uint64(i), 64)
+			}
+		}
+		return BVC(^uint64(0), 64)
+	})
+	reg("internal/bytealg.CountString", func(p *Path, fn *ssa.Function, a []Value) Value {
+		s := a[0].(Str)
+		c := a[1].(*Term)
+		n := BVC(0, 64)
+		for _, b := range s.Bytes() {
+			n = BinBV(OpAdd, n, Ite(Eq(b, c), BVC(1, 64), BVC(0, 64)))
+		}
+		return n
+	})
+	reg("internal/bytealg.Equal", func(p *Path, fn *ssa.Function, a []Value) Value {
+		return strEq(StrFromTerms(bytesOf(p, a[0])), StrFromTerms(bytesOf(p, a[1])))
+	})
+	reg("internal/bytealg.IndexString", func(p *Path, fn *ssa.Function, a []Value) Value {
+		s, sub := a[0].(Str), a[1].(Str)
+		if s.IsConc() && sub.IsConc() {
+			return BVC(uint64(int64(strings.Index(s.Conc(), sub.Conc()))), 64)
+		}
+		sb := s.Bytes()
+		for i := 0; i+sub.Len() <= len(sb); i++ {
+			if p.Fork(strEq(StrFromTerms(sb[i:i+sub.Len()]), sub)) {
+				return BVC(uint64(i), 64)
+			}
+		}
+		return BVC(^uint64(0), 64)
+	})
+	reg("strings.Index", intrinsics["internal/bytealg.IndexString"])
+	reg("strings.Contains", func(p *Path, fn *ssa.Function, a []Value) Value {
+		r := intrinsics["internal/bytealg.IndexString"](p, fn, a).(*Term)
+		return Not(Eq(r, BVC(^uint64(0), 64)))
+	})
+	reg("strings.IndexByte", intrinsics["internal/bytealg.IndexByteString"])
+	reg("strings.EqualFold", func(p *Path, fn *ssa.Function, a []Value) Value {
+		x, y := a[0].(Str), a[1].(Str)
+		if x.IsConc() && y.IsConc() {
+			return BoolC(strings.EqualFold(x.Conc(), y.Conc()))
+		}
+		lower := func(s Str) Str {
+			out := make([]*Term, s.Len())
+			for i, b := range s.Bytes() {
+				up := And(Cmp(OpUle, BVC('A', 8), b), Cmp(OpUle, b, BVC('Z', 8)))
+				out[i] = Ite(up, BinBV(OpAdd, b, BVC(32, 8)), b)
+			}
+			return StrFromTerms(out)
+		}
+		return strEq(lower(x), lower(y))
+	})
 }
